@@ -23,6 +23,7 @@ from typing import Dict, List, Optional, Tuple
 from hsim.core.env import SimEnv
 from hsim.core.runner import RunResult
 from hsim.gen import messages as G
+from hsim.gen import objects as O
 from hsim.props.udp_common import Driver, WireModel, rand_fate
 from hsim.stubs import lludp as L
 from hsim.worlds.udp import Arrival, UdpWorld
@@ -34,7 +35,8 @@ PROBES = ["waiter_cancelled_while_subscribed", "subscriber_block_left_by_excepti
           "delayed_resend_of_copy", "two_rlv_commands_both_handled", "rlv_partially_handled",
           "truthy_with_pending_take", "packet_hook_swallowed", "illegal_followup_rejected", "lifecycle_hook_raised",
           "send_orig_by_addon", "mutated_forward", "take_false_subscriber_saw_original", "late_send_of_observed_original",
-          "drop_after_take", "command_channel", "hook_raised"]
+          "drop_after_take", "command_channel", "hook_raised", "object_hook_raised", "object_update_hooks",
+          "object_kill_hooks", "object_hook_raised_then_others_ran"]
 COMPONENTS = {
     "real": ["AddonManager.init / _call_all_addon_hooks / _call_module_hooks / _try_call_hook / handle_lludp_message "
              "(command channel, RLV) / lifecycle dispatch", "InterceptingLLUDPProxyProtocol.handle_proxied_packet",
@@ -55,6 +57,7 @@ HOOK_BEHAVIOURS = ["falsy", "falsy", "falsy", "truthy", "raise", "take_now", "ta
                    "send_after_drop", "send_after_take", "drop_after_take"]
 PP_BEHAVIOURS = ["falsy"] * 8 + ["truthy", "raise"]
 RLV_BEHAVIOURS = ["falsy", "falsy", "truthy", "raise"]
+OBJ_BEHAVIOURS = ["falsy", "falsy", "truthy", "raise", "raise"]
 LIFECYCLE = ["handle_session_init", "handle_region_registered", "handle_circuit_created", "handle_region_changed",
              "handle_session_closed", "handle_init"]
 EXCS = ["ValueError", "KeyError", "RuntimeError", "AssertionError", "AttributeError", "Custom"]
@@ -86,6 +89,14 @@ def gen_plan(rng: random.Random, tier: str) -> dict:
         t = round(t + 0.01, 4)
     if rng.random() < 0.7:
         steps.append({"at": t, "op": "amc", "v": 0, "r": cfg["regions"][0][0]})
+    # object traffic (object hooks are one more hook point): needs the region's handshake to have passed
+    with_objects = rng.random() < 0.5
+    if with_objects:
+        for r in cfg["regions"][0]:
+            if rng.random() < 0.85:
+                t = round(t + 0.01, 4)
+                steps.append({"at": t, "op": "hs", "v": 0, "r": r})
+    obj_tags: List[int] = []
     n = rng.randint(3, 40 if big else 22)
     k = 0
     for _ in range(n):
@@ -121,6 +132,8 @@ def gen_plan(rng: random.Random, tier: str) -> dict:
             kind = "cmd"
         elif inbound and y < 0.3:
             kind = "rlv"
+        elif inbound and with_objects and y < 0.6:
+            kind = "objkill" if obj_tags and y < 0.4 else "obj"
         n_cmds = rng.randint(1, 3) if kind == "rlv" else 0
 
         def pick(pool):
@@ -132,6 +145,12 @@ def gen_plan(rng: random.Random, tier: str) -> dict:
               "lludp": [pick(HOOK_BEHAVIOURS) for _ in range(n_addons)],
               "rlv": [[pick(RLV_BEHAVIOURS) for _ in range(n_addons)] for _ in range(n_cmds)],
               "exc": rng.choice(EXCS), "later": rng.choice([0.0, 0.02, 0.2])}
+        if kind == "obj":
+            st["nobj"] = rng.randint(1, 3)
+            st["objhook"] = [pick(OBJ_BEHAVIOURS) for _ in range(n_addons)]
+            obj_tags.append(k)
+        elif kind == "objkill":
+            st["of"] = rng.choice(obj_tags)
         steps.append(st)
     return {"property": PROPERTY, "cfg": cfg, "steps": steps}
 
@@ -140,7 +159,7 @@ def simplify_step(step):
     if step.get("fate"):
         yield {**step, "fate": {}}
     if step.get("op") == "chat":
-        for key in ("pp", "lludp"):
+        for key in ("pp", "lludp") + (("objhook",) if step.get("objhook") else ()):
             for i, b in enumerate(step[key]):
                 if b != "falsy":
                     lst = list(step[key])
@@ -158,8 +177,10 @@ def simplify_step(step):
             yield {**step, "reliable": False}
         if step.get("zerocoded"):
             yield {**step, "zerocoded": False}
-        if step.get("kind") != "plain":
+        if step.get("kind") in ("rlv", "cmd"):
             yield {**step, "kind": "plain", "rlv": []}
+        if step.get("nobj", 1) > 1:
+            yield {**step, "nobj": step["nobj"] - 1}
     if step.get("op") == "subscribe":
         if step.get("timeout"):
             yield {**step, "timeout": None}
@@ -184,12 +205,15 @@ def simplify_plan(plan):
     if cfg["n_addons"] > 1:
         n = cfg["n_addons"] - 1
         if all(all(b == "falsy" for b in s["pp"][n:]) and all(b == "falsy" for b in s["lludp"][n:])
+               and all(b == "falsy" for b in s.get("objhook", [])[n:])
                and all(all(b == "falsy" for b in row[n:]) for row in s.get("rlv", []))
                for s in plan["steps"] if s["op"] == "chat") and not any(f[n] for f in lr.values()):
             steps = []
             for s in plan["steps"]:
                 if s["op"] == "chat":
                     s = {**s, "pp": s["pp"][:n], "lludp": s["lludp"][:n], "rlv": [row[:n] for row in s.get("rlv", [])]}
+                    if s.get("objhook"):
+                        s["objhook"] = s["objhook"][:n]
                 steps.append(s)
             yield {**plan, "cfg": {**cfg, "n_addons": n, "lifecycle_raise": {h: f[:n] for h, f in lr.items()}},
                    "steps": steps}
@@ -228,6 +252,8 @@ def tag_of_message(message) -> Optional[int]:
             txt = message["ChatData"]["Message"]
         elif message.name == "ChatFromSimulator":
             txt = message["ChatData"]["FromName"]
+        elif message.name == "ObjectUpdate":
+            txt = message["ObjectData"]["Text"]
         else:
             return None
         m = re.search(r"#(\d+)#", str(txt))
@@ -352,6 +378,27 @@ def run_plan(plan: dict) -> RunResult:
                     res.probe("hook_raised")
                     raise make_exc(st["exc"], "handle_rlv_command")
                 return None
+
+            def _obj_hook(self, hook, obj):
+                txt = getattr(obj, "Text", None)
+                m = TAG_RE.search(txt if isinstance(txt, bytes) else str(txt).encode())
+                st = beh.get(int(m.group(1))) if m else None
+                if st is None or st.get("kind") != "obj":
+                    return None
+                b = st["objhook"][self.idx]
+                rec.add(kind="objhook", hook=hook, addon=self.idx, tag=st["tag"], local=obj.LocalID, beh=b)
+                if b == "truthy":
+                    return True
+                if b == "raise":
+                    res.probe("object_hook_raised")
+                    raise make_exc(st["exc"], hook)
+                return None
+
+            def handle_object_updated(self, session, region, obj, updated_props, msg=None):
+                return self._obj_hook("handle_object_updated", obj)
+
+            def handle_object_killed(self, session, region, obj):
+                return self._obj_hook("handle_object_killed", obj)
 
             def handle_lludp_message(self, session, region, message):
                 tag = tag_of_message(message)
@@ -484,7 +531,7 @@ def run_plan(plan: dict) -> RunResult:
                     raise make_exc("ValueError", "plain message_handler subscriber")
             return _h
         for i, kind_ in enumerate(cfg.get("plain_subs", [])):
-            for nm in ("ChatFromViewer", "ChatFromSimulator"):
+            for nm in ("ChatFromViewer", "ChatFromSimulator", "ObjectUpdate"):
                 session.message_handler.subscribe(nm, make_plain(i, kind_))
 
         # ---------------- lifecycle isolation: handle_init / handle_session_init --------------------
@@ -516,6 +563,13 @@ def run_plan(plan: dict) -> RunResult:
                 if st["kind"] == "rlv":
                     chat = "@" + ",".join(f"c{ci}=n" for ci in range(len(st["rlv"])))
                     body = G.chat_from_simulator_body(chat, from_name=f"#{tag}#", chat_type=8)
+                elif st["kind"] == "obj":
+                    body = O.object_update_body(reg.handle, [(obj_local(tag, i), obj_local(tag, i), 0)
+                                                             for i in range(st["nobj"])], 0, text=b"#%d#" % tag)
+                elif st["kind"] == "objkill":
+                    body = O.kill_body([obj_local(st["of"], i) for i in range(beh[st["of"]]["nobj"])])
+                    kill_of[len(kill_sent)] = st["of"]
+                    kill_sent.append(st["of"])
                 else:
                     body = G.chat_from_simulator_body("hello", from_name=f"#{tag}#", chat_type=1)
                 ep, flow = reg, viewer.proxy_udp
@@ -530,6 +584,19 @@ def run_plan(plan: dict) -> RunResult:
                 ep.send_payload(viewer.proxy_udp, dg, Fate.from_json(st.get("fate")))
 
         sent_pid: Dict[int, int] = {}
+        kill_of: Dict[int, int] = {}
+        kill_sent: List[int] = []
+
+        def obj_local(tag, i):
+            return 100 + tag * 4 + i
+
+        def op_hs(st):
+            far = driver.far(st)
+            reg = world.regions.get(far)
+            if reg is None or viewer.proxy_udp not in reg.peers:
+                return
+            reg.send_payload(viewer.proxy_udp, L.build_datagram(L.RELIABLE, reg.alloc_pid(viewer.proxy_udp), 0,
+                                                                O.region_handshake_body("sim")))
 
         def op_amc(st):
             far = driver.far(st)
@@ -659,6 +726,7 @@ def run_plan(plan: dict) -> RunResult:
 
         driver.ops["chat"] = op_chat
         driver.ops["amc"] = op_amc
+        driver.ops["hs"] = op_hs
         driver.ops["subscribe"] = op_subscribe
 
         # ---------------- per-arrival oracle ---------------------------------------------------------
@@ -713,6 +781,23 @@ def run_plan(plan: dict) -> RunResult:
                 if len(a.emissions) != 1:
                     return violate("C07/wire/original-count", name=exp.name, emitted=len(a.emissions), want=1)
                 return
+            if exp.name == "RegionHandshake":
+                if a.escaped is not None:
+                    return violate("C07/isolation/exception-escaped", name=exp.name, exc=repr(a.escaped)[:200])
+                if len(a.emissions) != 1:
+                    return violate("C07/wire/original-count", name=exp.name, emitted=len(a.emissions), want=1)
+                obj_tracked.add(exp.far)
+                return
+            if exp.name == "KillObject" and tag is None:
+                if a.escaped is not None:
+                    return violate("C07/isolation/exception-escaped", name=exp.name, exc=repr(a.escaped)[:200])
+                if len(a.emissions) != 1:
+                    return violate("C07/wire/original-count", name=exp.name, emitted=len(a.emissions), want=1)
+                import struct
+                n_ids = pin.body_plain[1]
+                ids = [struct.unpack_from("<I", pin.body_plain, 2 + 4 * i)[0] for i in range(n_ids)]
+                return check_object_hooks(exp, entries, beh.get((ids[0] - 100) // 4) if ids else None, ids,
+                                          "handle_object_killed", False)
             st = beh.get(tag)
             if st is None:
                 return
@@ -781,6 +866,11 @@ def run_plan(plan: dict) -> RunResult:
                 if calls != want_calls:
                     return violate("C07/isolation/subscriber-skipped", tag=tag, called=calls, want=want_calls,
                                    subs=cfg.get("plain_subs"))
+            if st["kind"] == "obj" and exp.direction == "in":
+                check_object_hooks(exp, entries, st, [obj_local(tag, i) for i in range(st["nobj"])],
+                                   "handle_object_updated", swallowed)
+                if stopped:
+                    return
             # ---- exceptions must not escape a valid datagram's handling ------------------------------
             if a.escaped is not None:
                 takers = [e for e in entries if e["kind"] == "take" and e.get("effective")]
@@ -850,6 +940,58 @@ def run_plan(plan: dict) -> RunResult:
             want_logged = 0 if swallowed else 1
             if n_logged != want_logged:
                 return violate("C07/isolation/logging", tag=tag, logged=n_logged, want=want_logged)
+
+        obj_tracked = set()                       # far addrs whose RegionHandshake the proxy has seen
+        obj_known: Dict[tuple, set] = {}          # far -> local ids the proxy must currently be tracking
+
+        def check_object_hooks(exp, entries, st, locals_, hook, swallowed):
+            """Object hooks are one more hook point: every addon's hook runs (until one returns truthy) for every
+            object, whatever the ones before it did, and the object manager's own bookkeeping happens regardless."""
+            if st is None:
+                return
+            n_add = cfg["n_addons"]
+            chain = []
+            for i in range(n_add):
+                chain.append(i)
+                if st["objhook"][i] == "truthy":
+                    break
+            groups: Dict[int, list] = {}
+            for e in entries:
+                if e["kind"] == "objhook" and e["hook"] == hook:
+                    groups.setdefault(e["local"], []).append(e["addon"])
+            known = obj_known.setdefault(exp.far, set())
+            region = world.region_obj(0, exp.far)
+            active = exp.far in obj_tracked and not swallowed
+            for local in locals_:
+                seq = groups.get(local, [])
+                if len(seq) % len(chain) or seq != chain * (len(seq) // len(chain)):
+                    return violate("C07/isolation/object-hooks-skipped", hook=hook, local=local, called=seq,
+                                   chain=chain, behaviours=st["objhook"])
+                if not active:
+                    if seq and swallowed:
+                        return violate("C07/isolation/hook-sequence", hook=hook, why="packet was claimed before parsing",
+                                       called=seq)
+                    continue
+                must = (local not in known) if hook == "handle_object_updated" else (local in known)
+                if must and len(seq) != len(chain):
+                    return violate("C07/isolation/object-hooks-skipped", hook=hook, local=local, called=seq,
+                                   chain=chain, behaviours=st["objhook"], why="first announcement" if
+                                   hook == "handle_object_updated" else "kill of a tracked object")
+                tracked_now = region is not None and region.objects.lookup_localid(local) is not None
+                if hook == "handle_object_updated":
+                    known.add(local)
+                    if not tracked_now:
+                        return violate("C07/isolation/bookkeeping-skipped", what="object not tracked after its update",
+                                       local=local, behaviours=st["objhook"])
+                else:
+                    known.discard(local)
+                    if tracked_now:
+                        return violate("C07/isolation/bookkeeping-skipped", what="object still tracked after its kill",
+                                       local=local, behaviours=st["objhook"])
+                if any(st["objhook"][i] == "raise" for i in seq):
+                    res.probe("object_hook_raised_then_others_ran" if len(seq) > 1 else "object_hook_raised_alone")
+            if active:
+                res.probe("object_update_hooks" if hook == "handle_object_updated" else "object_kill_hooks")
 
         def me_tag(pe):
             return TAG_RE.search(pe.body_plain) is not None
